@@ -2,7 +2,7 @@
    the operator family bundled in [FamOK] / [ZeroOK]. *)
 From Coq Require Import List NArith Bool Arith Lia.
 From PV Require Import Graph.OpFamily Graph.Tape Graph.Lazy Graph.Backward Graph.TapeLemmas
-  Graph.LazyProofs Graph.BackwardProofs Graph.HistoryProofs.
+  Graph.LazyProofs Graph.BackwardProofs Graph.HistoryProofs Graph.FrameProofs Graph.MoreProofs.
 Import ListNotations.
 
 (* What the theorems assume about the (abstract) operator family:
@@ -49,10 +49,61 @@ Section Theorems.
   Proof. exact (evaluated_at_most_once F VO H1 H2 H3 w cs gi g'). Qed.
 
   Lemma T_reachable_invariant (e : env) cs :
-    winv F (run_all F VO {| w_graphs := []; w_env := e |} cs).
-  Proof. exact (proj1 (run_all_ok F VO H1 H2 H3 cs _ (winv_init F e))). Qed.
+    winv F (run_all F VO {| w_graphs := []; w_env := e |} cs) /\ wshape F (run_all F VO {| w_graphs := []; w_env := e |} cs).
+  Proof. apply (run_all_shape F VO H1 H2 H3 cs); [apply winv_init|constructor]. Qed.
+
+  Lemma T_order_independent (g : gstate) e l1 l2 g1 e1 g2 e2 : ginv F (g_ops g) -> allcomp F (g_ops g) e ->
+    fwds F g e l1 = Some (g1, e1) -> fwds F g e l2 = Some (g2, e2) ->
+    forall k oi1 oi2, nth_error (g_ops g1) k = Some oi1 -> nth_error (g_ops g2) k = Some oi2 ->
+      evald (g_ops g1) k -> evald (g_ops g2) k -> det F (g_ops g) k ->
+      map s_val (o_rets oi1) = map s_val (o_rets oi2).
+  Proof. exact (order_independent F H1 g e l1 l2 g1 e1 g2 e2). Qed.
+
+  (* every consumer reads the one memoised sample:
+     (forward) an operator evaluated by forward() holds f_fw applied to [aread] of its arguments
+               = the value slot of the argument (or the live parameter value);
+     (backward) the argument values handed to an operator's backward are [bread] = the same
+               value slots; both are stable (value_immutable) and the producer runs once
+               (evaluated_at_most_once). *)
+  Lemma T_random_single_sample :
+    (forall (g : gstate) e a v g' e', ginv F (g_ops g) -> forward F g e a = Some (v, g', e') ->
+       exists new, g_log g' = g_log g ++ new /\ forall k, In k new -> computed F (g_ops g') e k) /\
+    (forall k (ops : list (@opinfo Op Sh V)) e ops' e', wf_ops ops -> bstep F VO k ops e = Some (ops', e', true) ->
+       exists cur incs, nth_error ops k = Some cur /\ step_incs F VO k ops e cur incs) /\
+    (forall (ops : list (@opinfo Op Sh V)) e a oi s v, nth_error ops (fst a) = Some oi -> nth_error (o_rets oi) (snd a) = Some s ->
+       s_val s = Some v -> bread F ops e a = Some v /\ (f_inner F (o_op oi) = None -> aread F ops e a = Some v)).
+  Proof.
+    split; [|split].
+    - intros g e a v g' e' Hi Hf.
+      assert (Hslot : get_slot g a <> None) by (unfold forward in Hf; destruct (get_slot g a); discriminate).
+      destruct (forward_exact F H1 g e a Hi Hslot) as (v0 & g0 & e0 & Hf0 & Hex). rewrite Hf in Hf0. injection Hf0 as <- <- <-.
+      destruct Hex as (_ & _ & _ & _ & _ & _ & _ & new & L & _ & _ & Hc & _). exists new. auto.
+    - intros k ops e ops' e' Hwf Hb. destruct (step_get F VO _ _ _ _ _ Hwf Hb) as (cur & incs & A & _ & B & _). eauto.
+    - intros ops e a oi s v E1 E2 E3. unfold bread, aread. rewrite E1, E2, E3. split; [reflexivity|]. intros ->. reflexivity.
+  Qed.
+
+  Lemma T_stream_account cs (w : world) d : winv F w ->
+    (e_pos (w_env (run_all F VO w cs)) d + tot F d (w_graphs w) =
+     e_pos (w_env w) d + tot F d (w_graphs (run_all F VO w cs)) + cdraws d cs)%N.
+  Proof. exact (stream_account F VO H1 H2 H3 cs w d). Qed.
 
   (* ---------------- C06 ---------------- *)
+  Lemma T_backward_only_adds (g : gstate) e n g' e' : backward F VO g e n = Some (g', e') ->
+    exists cs, forall g0, exists e0',
+      backward F VO g (with_pgrad e g0) n = Some (g', e0') /\
+      e_pval e0' = e_pval e' /\ e_pos e0' = e_pos e' /\
+      forall p, e_pgrad e0' p = fold_left (vadd VO) (cs_for p cs) (g0 p).
+  Proof. exact (backward_only_adds F VO g e n g' e'). Qed.
+
+  Lemma T_later_nodes_irrelevant (g : gstate) e n g' e' x : backward F VO g e n = Some (g', e') ->
+    backward F VO (gapp g x) e n = Some (gapp g' x, e').
+  Proof. exact (later_nodes_irrelevant F VO g e n g' e' x). Qed.
+
+  Lemma T_backward_history cs : Forall (fun c => grad_free c = true) cs -> forall w : world,
+    exists contribs, forall w2 acc g0, wsim VO w w2 acc g0 ->
+      wsim VO (run_all F VO w cs) (run_all F VO w2 cs) (acc ++ contribs) g0.
+  Proof. exact (backward_history F VO cs). Qed.
+
   Lemma T_backward_again (g : gstate) e n g' e' : gok F g -> backward F VO g e n = Some (g', e') ->
     exists cs, (forall p, e_pgrad e' p = fold_left (vadd VO) (cs_for p cs) (e_pgrad e p)) /\
       forall e2, e_pval e2 = e_pval e -> exists g2 e2',
